@@ -225,7 +225,10 @@ def rewritten_binary(run):
             txt = subprocess.run(["objdump", "-d", "-M", "att", path], capture_output=True, text=True).stdout
             ap = os.path.join(d, "cur.s")
             open(ap, "w").write(txt)
-            b = MasterOfPuppets(MatchConfig(rp, path, InputFileType.binary, False, MatchingReturnMode.all_instructions_string, MatchingSearchMode.all_finds)).perform_matching()
+            try:
+                b = MasterOfPuppets(MatchConfig(rp, path, InputFileType.binary, False, MatchingReturnMode.all_instructions_string, MatchingSearchMode.all_finds)).perform_matching()
+            except Exception as e:   # objdump printed a listing for this file (txt): a refusal of the binary route is a difference
+                b = f"<binary route raised {type(e).__name__}: {e}>" if txt.strip() else ""
             a = MasterOfPuppets(MatchConfig(rp, ap, InputFileType.assembly, False, MatchingReturnMode.all_instructions_string, MatchingSearchMode.all_finds)).perform_matching()
             return b, a
 
